@@ -29,7 +29,7 @@ META = {
             "built from segments: isolated strobes, strobes spaced exactly N-1/N/N+1 apart, overlapping bursts, "
             "back-to-back strobes, long highs, random noise",
 }
-TIERS = {"quick": {"runs": 30000, "wall": 70}, "thorough": {"runs": 200000, "wall": 900}}
+TIERS = {"quick": {"runs": 60000, "wall": 70}, "thorough": {"runs": 200000, "wall": 900}}
 
 
 def gen(rng, tier, index):
